@@ -21,6 +21,10 @@ def run_case(ctx, case):
     curve = make_curve(U, P, W, intknots=bool(c.get("intknots")))
     rec.count("knots", "int" if c.get("intknots") else "fraction")
     start = curve_state(curve)
+    if not c.get("intknots"):
+        for tw in mixed_twins(U, P, W):          # numerically equal python-int / float knots first
+            impl(lambda: Derivate(tw))
+            rec.count("twin", "mixed-knot-types-first")
     r = impl(lambda: Derivate(curve))
     if curve_state(curve) != start:
         rec.violation("Derivate modified the curve", case)
